@@ -120,6 +120,20 @@ def patched(sched, adj=None, agg_threshold=None, bw_threshold=None):
             bwm.BandwidthLimitedStream = ScaledBLS
             saved.append((mgrm, 'LeakyBucket', realbucket))
             mgrm.LeakyBucket = CountingBucket
+        # TransferCoordinatorController keeps the coordinators in a set, whose
+        # iteration order follows object addresses: make it a function of
+        # the case instead (any order is possible in reality)
+        import s3transfer.futures as futm
+        TC = futm.TransferCoordinator
+        salt = getattr(sched, 'hash_salt', 0)
+
+        def det_hash(self):
+            tid = self.transfer_id
+            if isinstance(tid, int):
+                return (tid * 7 + salt * 3) % 11 + (tid << 8)
+            return object.__hash__(self)
+        saved.append((TC, '__hash__', TC.__hash__))
+        TC.__hash__ = det_hash
         if agg_threshold is not None:
             up = m['upload']
             realagg = up.AggregatedProgressCallback
@@ -281,6 +295,7 @@ def run_case(case, repo_checks=True):
 
     sched = Scheduler(make_policy(case.get('sched')),
                       max_steps=case.get('max_steps', 60000))
+    sched.hash_salt = case.get('hash_salt', 0)
     trace = Trace(sched)
     faults = FaultPlan(case.get('faults'), trace)
     fs = fakefs.MemFS(sched, trace, faults)
